@@ -183,7 +183,7 @@ def confirm(h, r, ov, env, outdir):
     if not tests:
         return {"status": "no-values", "summary": f"concrete playback produced no values (status {pr['status']})",
                 "playback_s": round(wall, 1)}
-    # one witness per failed check: replay them in turn until one reproduces (at most 4)
+    # one witness per failed check: replay them in turn until one reproduces (at most 6; cover-region witnesses come last)
     tried = []
     out = None
     seen = set()
@@ -194,7 +194,7 @@ def confirm(h, r, ov, env, outdir):
         if key in seen:
             continue
         seen.add(key)
-        if len(tried) >= 4:
+        if len(tried) >= 6:
             break
         out = run_native(ov, template, values, outdir, f"{h['name']}-{len(tried)}", scaled=h.get("scaled", False))
         out["values"] = values
